@@ -119,7 +119,7 @@ def units(prop, tier):
     from vf.pyunit import pyvc_unit
     if prop == 'C14':
         # (bytes_to_long: generous per-query budget; unloaded it needs < 1 s per query)
-        return [pyvc_unit(prop, 'number.' + t, registry, [N + t], timeout_ms=(180000 if t == 'bytes_to_long' else None)) for t in C14_TARGETS]
+        return [pyvc_unit(prop, 'number.' + t, registry, [N + t], timeout_ms=(180000 if t in ('bytes_to_long', 'long_to_bytes') else None)) for t in C14_TARGETS]
     if prop == 'C18':
         return [pyvc_unit(prop, 'number.' + t, registry, [N + t]) for t in C18_TARGETS]
     return []
@@ -127,16 +127,23 @@ def units(prop, tier):
 
 # ----------------------------------------------------------------------------------------------------------------------
 # bytes_to_long: PROVED (16 obligations) against be(): the contract every other area assumes (contracts/base.py).
-# NOT PROVED: long_to_bytes.  Exactly what is missing: (1) a PREPEND accumulator list abstraction -- the function builds its
-#   result with result.insert(0, chunk) in three loops of symbolic trip count, reads and overwrites result[0] and joins; the
-#   engine's list abstractions are fixed-shape lists and the APPEND-only accumulator (count, last, joined); (2) a model of
-#   bytes.lstrip(b'\x00') (uninterpreted suffix with: zero prefix removed, first byte non-zero, same be() value); (3) the lemma
-#   "b[0] != 0 ==> be(b) >= 256**(len(b)-1)" for the minimal-length clause.  The loop invariants would be
-#   be(joined) + n * 256**len(joined) == n0 and len(joined) == blocksize - bsr.  It stays ASSUMED (contracts/_intcommon.py
-#   ltb_contract: value, non-empty, upper/lower bound by length, minimal for blocksize 0, exactly blocksize bytes when n fits).
+# long_to_bytes: PROVED (124 obligations) for python-int arguments against the clauses of ltb_contract (value, non-empty, bound by
+#   length, minimal encoding for blocksize 0, exactly blocksize bytes == i2osp(n, blocksize) when n fits).  Engine additions made
+#   for it: the PREPEND accumulator list abstraction `pacc` (insert(0, x), [0] read/write, len, b"".join), a model of
+#   bytes.lstrip(b"\x00"), the opt-in facts `pacc_be` (positional notation of first ++ rest, zero padding on the left), the
+#   classical loop rule `forget: True`; proved lemmas split_mul, small_quot, horner4, horner8; trusted: be_lt, be_lower, i2osp_be, pow2_add.
+#   NOT pinned by the contract: for blocksize > 0 and n >= 256**blocksize the number of whole blocks (only be(result) == n and the
+#   bounds are stated there): the mutant `+ 2` blocks in target_len is not refuted.  Callers that pass Integer OBJECTS use the same
+#   clauses over ival(n) as an assumed contract (contracts/_intcommon.py use_lean_number_contracts).
 # NOT PROVED: getPrime, getStrongPrime, isPrime, _rabinMillerTest (legacy; floats in isPrime), GCD (== math.gcd, a builtin).
 #
 # Vacuity / strength check (tools/mut.py, exit 1; obligation that caught it):
+#  C14 long_to_bytes: loop 2 `n >> 32` -> `>> 31`             -> long_to_bytes.loop_inv_preserved.be_b_join_result_n_pow2...
+#      long_to_bytes: '>I' -> '<I'                            -> long_to_bytes.loop_inv_preserved.be_b_join_result_n_pow2...
+#      long_to_bytes: lstrip line removed                     -> long_to_bytes.ensures.minimal
+#      long_to_bytes: `or blocksize < 0` removed              -> long_to_bytes.loop_inv_entry.0_bsr
+#      long_to_bytes: b'\\x00' -> b'' for zero               -> long_to_bytes.ensures.nonempty, zero
+#      long_to_bytes: target_len `+ 2` blocks                 -> not refuted (see above)
 #  C14 bytes_to_long: `acc << 32` -> `<< 31`                 -> bytes_to_long.loop_inv_preserved.acc_be_s_4__k
 #      bytes_to_long: '>I' -> '<I'                            -> bytes_to_long.loop_inv_preserved.acc_be_s_4__k
 #      bytes_to_long: zero padding appended instead of prepended -> bytes_to_long.ensures.value
